@@ -61,6 +61,7 @@ class Transition:
         "check",
         "depth",
         "pre_state_flag",
+        "counterfactual",
     )
 
     def program(self):
@@ -150,6 +151,7 @@ def _expand(task):
                 tr.outcome = None
                 tr.nontrivial = False
                 tr.pre_state_flag = None
+                tr.counterfactual = None
                 tr.check = check
                 tr.depth = len(idxs) + 1
                 tr.rel, tr.exc = _lib_step(ctx, rel, op)
@@ -358,6 +360,7 @@ def replay_case(check: Check, case):
     tr.counters, tr.violations, tr.samples = collections.Counter(), [], []
     tr.outcome, tr.nontrivial, tr.check, tr.depth = None, False, check, len(prog) - 1
     tr.pre_state_flag = None
+    tr.counterfactual = None
     tr.rel, tr.exc = _lib_step(ctx, rel, tr.op)
     tr.val, tr.rej, tr.ooc = _ref_step(val, tr.op, scen, tr.rel)
     check.judge(tr)
